@@ -20,13 +20,37 @@ import (
 	"testing"
 )
 
+// c22eRun runs the scenario on both stores. Normally the etcd key space is read after every
+// op; at scale only where the topic named by the ops changes and from the end of the setup on.
+func c22eRun(t *testing.T, e *msEtcd, sc msScenario, scale bool) msRun {
+	ops, _, _ := msScenarioOps(sc)
+	if !scale {
+		return msRunBoth(t, e, sc.Brokers, ops)
+	}
+	topicOf := func(i int) string {
+		if i < 0 || i >= len(ops) {
+			return "\x00"
+		}
+		ts, _ := msOpNames(ops[i])
+		if len(ts) == 1 && ops[i].K != "md" {
+			return ts[0]
+		}
+		return ""
+	}
+	return msRunBothAt(t, e, sc.Brokers, ops, func(i int) bool {
+		return i >= len(sc.Setup)-1 || (topicOf(i+1) != "" && topicOf(i+1) != topicOf(i))
+	})
+}
+
 func TestVerifC22Etcd(t *testing.T) {
-	rep := vNewReport("C22", "two-topic scenarios on the real InMemoryStore and EtcdStore (embedded etcd): accepted names, mostly one a strict string prefix of the other (base a/orders/t1/A.b/x-y/0 + suffix -b .b _1 0 -v2 .dlq a - _ . 1 -0 .config -partitions, either one being the one operated on, also siblings and unrelated names), 1-5 partitions each (read back 0..2), next offsets, config, committed offsets of 1-2 groups on both; then 1-3 operations on one topic (DeleteTopic first in 60%), each followed by a full read-back of the other; non-trivial = both topics were created and a DeleteTopic succeeded; distinct = distinct scenario")
+	rep := vNewReport("C22", "two-topic scenarios on the real InMemoryStore and EtcdStore (embedded etcd): accepted names, mostly one a strict string prefix of the other (base a/orders/t1/A.b/x-y/0 + suffix -b .b _1 0 -v2 .dlq a - _ . 1 -0 .config -partitions, either one being the one operated on, also siblings and unrelated names), 1-5 partitions each (read back 0..2), next offsets, config, committed offsets of 1-2 groups on both; then 1-3 operations on one topic (DeleteTopic first in 60%), each followed by a full read-back of the other; plus 1 (thorough 6) scale scenario per run where the deleted topic carries 150-300 committed offsets; a deleted topic must leave none of its keys in etcd; non-trivial = both topics were created and a DeleteTopic succeeded; distinct = distinct scenario")
 	e := msStartEtcd(t)
 	var coq, jsons []string
+	scale := false
+	runScale := func(sc msScenario) {}
 	runOne := func(sc msScenario) {
 		ops, _, mutAt := msScenarioOps(sc)
-		run := msRunBoth(t, e, sc.Brokers, ops)
+		run := c22eRun(t, e, sc, scale)
 		canon, _ := json.Marshal(sc)
 		deleted := false
 		for i, at := range mutAt {
@@ -49,20 +73,31 @@ func TestVerifC22Etcd(t *testing.T) {
 			shr := sc
 			still := func(s msScenario) bool {
 				o, _, _ := msScenarioOps(s)
-				k, f := msScenarioOracle(s, msRunBoth(t, e, s.Brokers, o))
+				_ = o
+				k, f := msScenarioOracle(s, c22eRun(t, e, s, scale))
 				return f != "" && k == key
 			}
 			shr.Muts = vShrink(shr.Muts, func(m []msOp) bool { s := shr; s.Muts = m; return still(s) })
 			shr.Setup = vShrink(shr.Setup, func(m []msOp) bool { s := shr; s.Setup = m; return still(s) })
 			o2, _, _ := msScenarioOps(shr)
-			k2, f2 := msScenarioOracle(shr, msRunBoth(t, e, shr.Brokers, o2))
+			_ = o2
+			k2, f2 := msScenarioOracle(shr, c22eRun(t, e, shr, scale))
 			if f2 == "" {
 				shr, k2, f2 = sc, key, fail
 			}
 			rep.Fail(k2, k2, f2, shr)
 		}
-		coq = append(coq, fmt.Sprintf("mkCase17 %d %s %s %s %s", sc.Brokers, msCoqOps(ops), msCoqResList(run.im), msCoqResList(run.et), msCoqKeys(run.kvs)))
+		keys := "[]" // scale scenarios: answers only
+		if !scale {
+			keys = msCoqKeys(run.kvs)
+		}
+		coq = append(coq, fmt.Sprintf("mkCase17 %d %s %s %s %s", sc.Brokers, msCoqOps(ops), msCoqResList(run.im), msCoqResList(run.et), keys))
 		jsons = append(jsons, string(canon))
+	}
+	runScale = func(sc msScenario) {
+		scale = true
+		runOne(sc)
+		scale = false
 	}
 	if rc := vReplayCase(); rc != nil {
 		var sc msScenario
@@ -93,6 +128,10 @@ func TestVerifC22Etcd(t *testing.T) {
 			runOne(sc)
 		}
 		r := vNewRand(vSeed() ^ 0x22e7cd)
+		for i := 0; i < vN(1, 6); i++ { // scale: the deleted topic carries 150-300 committed offsets
+			rep.Hist("scenario:scale")
+			runScale(msGenScaleScenario(r.Fork()))
+		}
 		n := vN(50, 700)
 		for i := 0; i < n; i++ {
 			runOne(msGenScenario(r.Fork()))
